@@ -144,6 +144,12 @@ func decodeSlice(b []byte, val reflect.Value, name string) (int, error) {
 	}
 
 	pos := buf.Pos()
+	// every element takes at least one byte on the wire: a length that
+	// exceeds the remaining bytes cannot be satisfied and must not be
+	// allocated for.
+	if int(n) > len(b)-pos {
+		return pos, errors.Errorf("array too large: %d elements in %d bytes", n, len(b)-pos)
+	}
 	// a is a slice of []*Foo
 	a := reflect.MakeSlice(val.Type(), int(n), int(n))
 	for i := 0; i < int(n); i++ {
